@@ -6,6 +6,10 @@ from fxv import harness
 
 
 def main():
+    import os
+    if os.environ.get('VERIF_DEBUG_DUMP'):
+        import faulthandler
+        faulthandler.dump_traceback_later(int(os.environ['VERIF_DEBUG_DUMP']), repeat=True)
     if len(sys.argv) < 2:
         print('usage: check <ID> [--tier quick|thorough] [--replay FILE]')
         return 2
